@@ -35,6 +35,14 @@ def check(index, ctx):
                 ev = r.events
                 # ---- norm_eps: THRESHOLD
                 thr = [e for e in ev if e["kind"] in ("scale_branch", "cmp") and ("norm_eps" in e.get("right_origin", []) or "norm_eps" in e.get("left_origin", []))]
+                def oriented_ev(e):
+                    """The comparison with norm_eps on the right (`eps > s` reads `s < eps`)."""
+                    if e.get("left_origin") == ["norm_eps"] and e.get("right_origin") != ["norm_eps"]:
+                        fl = {"Gt": "Lt", "GtE": "LtE", "Lt": "Gt", "LtE": "GtE"}
+                        return dict(e, left=e.get("right"), right=e.get("left"), left_origin=e.get("right_origin"), right_origin=e.get("left_origin"), op=fl.get(e.get("op"), e.get("op")))
+                    return e
+
+                thr = [oriented_ev(e) for e in thr]
                 good = [e for e in thr if e["kind"] == "scale_branch" and e.get("left") == "1" and e.get("right_origin") == ["norm_eps"] and e.get("op") in ("Lt", "LtE")
                         and any(o.startswith("svd_S#") for o in e.get("left_origin", []))]
                 svd_raw = any(e["kind"] == "sop" and e["sop"] == "svd_S" and e["raw"] for e in ev)
